@@ -2,6 +2,8 @@
 
 package vrt
 
+import "sync"
+
 // Bodies are never executed: the symbolic engine intercepts these by name.
 
 func Bool(label string) bool                      { return false }
@@ -24,3 +26,4 @@ func ChanLen(ch any) int                           { return 0 }
 func TypeName(v any) string                        { return "" }
 func Opaque(v any) string                          { return "" }
 func AssignIfType(err error, target any) bool      { return false }
+func MutexLocked(m *sync.Mutex) bool               { return false }
